@@ -11,6 +11,7 @@
 import IocProofs.Lemmas.ValueC18
 import IocProofs.Lemmas.ValueTwice
 import IocProofs.Lemmas.SemStages
+import IocProofs.Lemmas.SemDelegate
 namespace Ioc.C18
 open Ioc Ioc.Tag Ioc.Value
 
@@ -309,5 +310,17 @@ theorem C18_validateStage_is_decision (validate : FVal → List Bytes → Bool) 
       cases validate (b.getD (zero ty)) cs <;> simp
 
 end code
+
+/-- the stage order also holds for the configuration points of a USER post-processor: InvokeBeanFactoryPostProcessors
+    (regenerated, `C12_code_InvokeBeanFactoryPostProcessors`) SORTS the raw processors BEFORE it creates any of them and
+    appends each to the active chain as soon as it is created — so a processor created there is populated by the built-in
+    stages that sort before it, in stage order, never by an arbitrary subset in registry order -/
+theorem C18_code_processors_sorted_before_creation (sort : (Nat → Nat → Bool) → List Nat → List Nat) (part : Nat → Order.Part)
+    (fpFails : Nat → Bool) (drFails : Bool) (lazy : Nat → Bool) (getc : Nat → Option Nat) (isCPP : Nat → Bool)
+    (fprocs raw cpp0 : List Nat) :
+    Go.run (Sem.regPrims' fpFails drFails (Order.sortOrdered sort part raw) lazy getc isCPP) Progs.del_InvokeBeanFactoryPostProcessors
+        [.str "factory", .list (fprocs.map Sem.encP)] { raw := .list (raw.map Sem.encP), cpp := cpp0.map Sem.encP } =
+      some (Sem.invokeModel fpFails drFails (Order.sortOrdered sort part raw) lazy getc isCPP fprocs raw cpp0) :=
+  Sem.invokeBeanFactoryPostProcessors_sem fpFails drFails _ lazy getc isCPP fprocs raw cpp0
 
 end Ioc.C18
